@@ -15,13 +15,17 @@
   `cycle_iff_onStack` (true cycles only), termination for delimiter-balanced tables and under
   the finite-reach hypothesis, the REFUTATION of general termination
   (`resolve_diverges_counterexample`: a 2-entry table with unbalanced values on which no fuel
-  suffices; the Go code overflows its stack), and `resolve_refines_evalT` on the flat fragment.
+  suffices; the Go code overflows its stack), `resolve_refines_evalT` on the flat fragment and, under the
+  key-safety hypothesis, for nested keys; the real `norm` (re-lexing): irrelevant on inputs without
+  partial delimiters, divergent on a balanced table with one.
 -/
 import YtkProofs.Resolver
 import YtkProofs.ResolverSem
 import YtkProofs.ResolverTerm
 import YtkProofs.ResolverDiverge
 import YtkProofs.ResolverEval
+import YtkProofs.ResolverNested
+import YtkProofs.ResolverRelex
 
 namespace Ytk.C11
 open Ytk.Resolver
@@ -331,6 +335,254 @@ theorem evalT_idempotent_partial {tt : TTable} (hT : tt.WF) (n : Nat) (t : Tmpl)
     Resolves id (toTable tt) out st (.ok out) :=
   ((evalT_refines hT n t st _ ht h (by simp)).2 out rfl).resolves
 
+/-! ## nested keys: agreement with the recursive-descent evaluator (YtkProofs/ResolverNested.lean)
+
+  `Tmpl2` is the AST of the FULL grammar (`done | lit text rest | ph key rest | phd key default rest`
+  where `key` and `default` are templates again: `${a${b}}`, `${${k}:dflt}`; literal text is free of
+  prefix / suffix tokens but may contain separators), `render2` its token list, `evalT2` the
+  reference semantics read off the Go code: the key template is evaluated (and then the default,
+  both with the placeholder's ORIGINAL text on the stack), the evaluated key text is looked up;
+  known → evaluated value; unknown → evaluated default, else the placeholder stays verbatim in its
+  original form; circular iff the placeholder's original text is being expanded.
+  Table: keys are separator-free token lists, values are templates (`TTable2.WF`).
+
+  FULL (unconditional) statement — FALSE, see `nested_needs_sepfree_counterexample`:
+
+      ∀ tt n t st, tt.WF → t.WF → evalT2 tt n t st ≠ .outOfFuel →
+        Resolves id (toTable2 tt) (render2 t) st (evalT2 tt n t st)
+
+  The resolver splits the RESOLVED placeholder text at its FIRST separator; a separator that comes
+  out of a substituted value (or of literal key text, or of a verbatim block) in key position moves
+  the split away from the one in the AST.  Hypothesis that makes it true (`keySafe tt n t st`,
+  a decidable Boolean with the recursion of `evalT2`): every key text that this run evaluates and
+  looks up is separator-free.  Nothing is required of prefix / suffix tokens in key texts (verbatim
+  blocks of unknown inner keys are fine), nothing of values that never reach a key position, and
+  nothing of the parts of the template that the run does not execute. -/
+
+/-- `resolve_refines_evalT`, nested keys: whenever the reference evaluator ends — with a text or
+    with a circular reference — on a run whose evaluated key texts are separator-free, the resolver
+    ends with the SAME result on the rendered template (for every fuel from some point on, for
+    every stack). -/
+theorem resolve_refines_evalT_nested_partial {tt : TTable2} (hT : tt.WF) (n : Nat) (t : Tmpl2)
+    (st : List Toks) (ht : t.WF) (h : evalT2 tt n t st ≠ .outOfFuel) (hk : keySafe tt n t st = true) :
+    ∃ k, ∀ m, k ≤ m → resolve id m (toTable2 tt) (render2 t) st = evalT2 tt n t st :=
+  (evalT2_refines hT n t st _ ht rfl h hk).1.fuel
+
+/-- same string, or both circular (with the same text) -/
+theorem resolve_refines_evalT_nested_cases_partial {tt : TTable2} (hT : tt.WF) (n : Nat) (t : Tmpl2)
+    (st : List Toks) (ht : t.WF) (hk : keySafe tt n t st = true) :
+    (∀ out, evalT2 tt n t st = .ok out → Resolves id (toTable2 tt) (render2 t) st (.ok out)) ∧
+    (∀ o, evalT2 tt n t st = .cycle o → Resolves id (toTable2 tt) (render2 t) st (.cycle o)) :=
+  ⟨fun _ e => (evalT2_refines hT n t st _ ht e (by simp) hk).1,
+   fun _ e => (evalT2_refines hT n t st _ ht e (by simp) hk).1⟩
+
+/-- the evaluated text of a template contains nothing a further scan would change (verbatim
+    blocks `${a${b}}` of unknown keys included: they are re-evaluated to themselves) -/
+theorem evalT2_idempotent_partial {tt : TTable2} (hT : tt.WF) (n : Nat) (t : Tmpl2) (st : List Toks)
+    (ht : t.WF) (hk : keySafe tt n t st = true) {out : Toks} (h : evalT2 tt n t st = .ok out) :
+    Resolves id (toTable2 tt) out st (.ok out) :=
+  ((evalT2_refines hT n t st _ ht h (by simp) hk).2 out rfl).2
+
+/-- the hypothesis in STATIC, table-level form (decidable, syntactic): every table value has
+    separator-free output (`Tmpl2.SepFreeOut`: literal text without separator; a placeholder
+    without default, which may stay verbatim, has separator-free text; a placeholder with default
+    has a `SepFreeOut` default) and safe keys, and every key sub-template of the template and of the
+    values is `SepFreeOut` (`Tmpl2.KeysOK`, `TTable2.KeySafe`).  Then EVERY run is key-safe. -/
+theorem keySafe_of_static_table {tt : TTable2} (hS : tt.KeySafe) (n : Nat) (t : Tmpl2)
+    (st : List Toks) (hk : t.KeysOK) : keySafe tt n t st = true :=
+  keySafe_of_static hS n t st hk
+
+/-- `resolve_refines_evalT`, nested keys, under the static table hypothesis -/
+theorem resolve_refines_evalT_nested_static_partial {tt : TTable2} (hT : tt.WF) (hS : tt.KeySafe)
+    (n : Nat) (t : Tmpl2) (st : List Toks) (ht : t.WF) (hk : t.KeysOK)
+    (h : evalT2 tt n t st ≠ .outOfFuel) :
+    ∃ k, ∀ m, k ≤ m → resolve id m (toTable2 tt) (render2 t) st = evalT2 tt n t st :=
+  resolve_refines_evalT_nested_partial hT n t st ht h (keySafe_of_static hS n t st hk)
+
+/-- the static hypotheses hold for the table and template of `nonvacuous_nested` and for
+    `${${k}:d${b}}` (nested key with default); they fail for the table of the counterexample
+    (a = `k:z`), and the per-run hypothesis is strictly weaker: the table of
+    `nonvacuous_nested_default` (a1 = `x:y`, never in key position) is not `KeySafe` -/
+theorem nonvacuous_nested_static :
+    let tt : TTable2 := [([.ch 'b'], .lit [.ch '1'] .done), ([.ch 'a', .ch '1'], .lit [.ch 'x'] .done),
+      ([.ch 'k'], .lit [.ch 'u'] .done)]
+    let phB : Tmpl2 := .ph (.lit [.ch 'b'] .done) .done
+    tt.WF ∧ tt.KeySafe ∧ (Tmpl2.ph (.lit tA phB) .done).KeysOK ∧
+    (Tmpl2.phd (.ph (.lit [.ch 'k'] .done) .done) (.lit [.ch 'd'] phB) .done).KeysOK ∧
+    ¬ TTable2.KeySafe [(tA, .lit [.ch 'k', .sep, .ch 'z'] .done)] ∧
+    ¬ TTable2.KeySafe [([.ch 'a', .ch '1'], .lit [.ch 'x', .sep, .ch 'y'] .done)] := by
+  decide
+
+/-- a genuinely nested key: `${a${b}}` with b = `1`, a1 = `x`  →  `x` (hypotheses satisfied, the
+    evaluator and the resolver agree) -/
+theorem nonvacuous_nested :
+    let tt : TTable2 := [([.ch 'b'], .lit [.ch '1'] .done), ([.ch 'a', .ch '1'], .lit [.ch 'x'] .done)]
+    let t : Tmpl2 := .ph (.lit tA (.ph (.lit [.ch 'b'] .done) .done)) .done
+    tt.WF ∧ t.WF ∧ keySafe tt 10 t [] = true ∧
+    render2 t = [.pre, .ch 'a', .pre, .ch 'b', .suf, .suf] ∧
+    evalT2 tt 10 t [] = .ok [.ch 'x'] ∧
+    resolveTop id 10 (toTable2 tt) (render2 t) = .ok [.ch 'x'] := by
+  decide
+
+/-- nested keys with defaults, known and unknown, and a verbatim nested block:
+    `${${k}:d${b}}|${a${b}:z:z}|${q${b}}|${a${u}:${b}}` with b = `1`, a1 = `x:y` (a value with a
+    separator, NOT in key position), k = `u`  →  `d1|x:y|${q${b}}|1` -/
+theorem nonvacuous_nested_default :
+    let tt : TTable2 := [([.ch 'b'], .lit [.ch '1'] .done),
+      ([.ch 'a', .ch '1'], .lit [.ch 'x', .sep, .ch 'y'] .done), ([.ch 'k'], .lit [.ch 'u'] .done)]
+    let phB : Tmpl2 := .ph (.lit [.ch 'b'] .done) .done
+    let t : Tmpl2 :=
+      .phd (.ph (.lit [.ch 'k'] .done) .done) (.lit [.ch 'd'] phB)
+        (.lit [.ch '|'] (.phd (.lit tA phB) (.lit [.ch 'z', .sep, .ch 'z'] .done)
+          (.lit [.ch '|'] (.ph (.lit [.ch 'q'] phB)
+            (.lit [.ch '|'] (.phd (.lit tA (.ph (.lit [.ch 'u'] .done) .done)) phB .done))))))
+    tt.WF ∧ t.WF ∧ keySafe tt 12 t [] = true ∧
+    evalT2 tt 12 t [] = .ok [.ch 'd', .ch '1', .ch '|', .ch 'x', .sep, .ch 'y', .ch '|',
+      .pre, .ch 'q', .pre, .ch 'b', .suf, .suf, .ch '|', .ch '1'] ∧
+    resolveTop id 12 (toTable2 tt) (render2 t) = evalT2 tt 12 t [] := by
+  decide
+
+/-- … and a circular one through a nested key: a1 = `${a${b}}`, b = `1` -/
+theorem nonvacuous_nested_cycle :
+    let t : Tmpl2 := .ph (.lit tA (.ph (.lit [.ch 'b'] .done) .done)) .done
+    let tt : TTable2 := [([.ch 'b'], .lit [.ch '1'] .done), ([.ch 'a', .ch '1'], t)]
+    tt.WF ∧ t.WF ∧ keySafe tt 10 t [] = true ∧
+    evalT2 tt 10 t [] = .cycle [.ch 'a', .pre, .ch 'b', .suf] ∧
+    resolveTop id 10 (toTable2 tt) (render2 t) = .cycle [.ch 'a', .pre, .ch 'b', .suf] := by
+  decide
+
+/-- WHY the hypothesis is needed: `${${a}}` with a = `k:z`.  The AST says: the key `${a}` evaluates
+    to the text `k:z`, which is unknown, and the placeholder has no default → verbatim `${${a}}`.
+    The resolver splits the resolved text `k:z` at its separator: key `k` unknown, default `z`. -/
+theorem nested_needs_sepfree_counterexample :
+    let tt : TTable2 := [(tA, .lit [.ch 'k', .sep, .ch 'z'] .done)]
+    let t : Tmpl2 := .ph (.ph (.lit tA .done) .done) .done
+    tt.WF ∧ t.WF ∧ keySafe tt 10 t [] = false ∧
+    evalT2 tt 10 t [] = .ok [.pre, .pre, .ch 'a', .suf, .suf] ∧
+    resolveTop id 10 (toTable2 tt) (render2 t) = .ok [.ch 'z'] := by
+  decide
+
+/-- hence the unconditional statement is refuted -/
+theorem resolve_refines_evalT_nested_unconditional_refuted :
+    ¬ ∀ (tt : TTable2) (n : Nat) (t : Tmpl2) (st : List Toks), tt.WF → t.WF →
+        evalT2 tt n t st ≠ .outOfFuel → Resolves id (toTable2 tt) (render2 t) st (evalT2 tt n t st) := by
+  intro h
+  have h₁ := h [(tA, .lit [.ch 'k', .sep, .ch 'z'] .done)] 10 (.ph (.ph (.lit tA .done) .done) .done) []
+    (by decide) (by decide) (by decide)
+  have h₂ : Resolves id (toTable2 [(tA, .lit [.ch 'k', .sep, .ch 'z'] .done)])
+      (render2 (.ph (.ph (.lit tA .done) .done) .done)) [] (.ok [.ch 'z']) := ⟨10, by decide, by simp⟩
+  have := h₁.unique h₂
+  revert this
+  decide
+
+/-! ## the real `norm`: re-lexing of the resolved placeholder text (YtkProofs/ResolverRelex.lean)
+
+  The driver runs the model with `norm = relex d` (`lex d ∘ unlex d`): the Go code sees the BYTES of
+  the resolved placeholder text, in which two halves of a delimiter may have been glued together.
+
+  Full statement — FALSE (`resolve_diverges_relex_counterexample`,
+  `resolve_terminates_balanced_relex_refuted`):
+
+      ∀ d tbl, (∀ kv ∈ tbl, Balanced kv.2) → ∀ s seen, ∃ n, ∀ m ≥ n, resolve (relex d) m tbl s seen ≠ .outOfFuel
+
+  A balanced value may hold one half of a delimiter as plain text (o = `$`); next to a literal `{`
+  the re-lexed text has a prefix token that is in no value and not in the input, and the run is
+  the divergent one of D29 (same class: at BYTE level the value `${o}{a}}${o}{:${o}{a}w` is not
+  balanced once `${o}{` has become `${`).  Hypothesis that makes it true: the delimiters are
+  non-empty and start with three different characters (`Delims.LexOK`: all triples in use), and no
+  character token of the table values and of the input is the FIRST character of a delimiter
+  (`Over (CleanTok d)`: no partial delimiter; decidable).  On such inputs `relex d` is the identity
+  on every text the resolver ever builds, and the model does not depend on `norm` at all. -/
+
+/-- abstract form: if `norm` is the identity on all token lists over an alphabet `A` that contains
+    the table values and the input, the resolver with `norm` is the resolver with `id` -/
+theorem resolve_norm_irrelevant_of_stable {A : Tok → Prop} (hA : ∀ t, Over A t → norm t = t)
+    (hT : ∀ kv ∈ tbl, Over A kv.2) (n : Nat) (s : Toks) (seen : List Toks) (hs : Over A s) :
+    resolve norm n tbl s seen = resolve id n tbl s seen :=
+  (resolve_norm_eq_id hA hT n s seen hs).1
+
+/-- re-lexing is the identity on clean token lists -/
+theorem relex_id_of_clean {d : Delims} (hd : d.LexOK) (t : Toks) (ht : Over (CleanTok d) t) :
+    relex d t = t :=
+  relex_clean hd t ht
+
+/-- the model under the real `norm` equals the model under `id` on clean tables and inputs
+    (same fuel, every stack): every `norm = id` theorem of this file transfers -/
+theorem resolve_relex_eq_id_of_clean {d : Delims} (hd : d.LexOK)
+    (hc : ∀ kv ∈ tbl, Over (CleanTok d) kv.2) (n : Nat) (s : Toks) (seen : List Toks)
+    (hs : Over (CleanTok d) s) : resolve (relex d) n tbl s seen = resolve id n tbl s seen :=
+  resolve_relex_eq_id hd hc n s seen hs
+
+/-- `resolve_terminates_balanced` under the REAL `norm`: balanced clean table values, ANY clean
+    input (balanced or with an unterminated tail), every stack.  `_partial`: the statement without
+    the cleanliness hypothesis is refuted below. -/
+theorem resolve_terminates_balanced_relex_partial (d : Delims) (hd : d.LexOK) (tbl : Table)
+    (hb : ∀ kv ∈ tbl, Balanced kv.2) (hc : ∀ kv ∈ tbl, Over (CleanTok d) kv.2)
+    (s : Toks) (hs : Over (CleanTok d) s) (seen : List Toks) :
+    ∃ n, ∀ m, n ≤ m → resolve (relex d) m tbl s seen ≠ .outOfFuel := by
+  obtain ⟨r, hr⟩ := resolves_balanced_relex hd hb hc s seen hs
+  obtain ⟨n, hn⟩ := hr.fuel
+  exact ⟨n, fun m hm => by rw [hn m hm]; exact hr.ne⟩
+
+/-- the nested-key refinement under the real `norm` -/
+theorem resolve_refines_evalT_nested_relex_partial {d : Delims} (hd : d.LexOK) {tt : TTable2}
+    (hT : tt.WF) (hc : ∀ kv ∈ toTable2 tt, Over (CleanTok d) kv.2) (n : Nat) (t : Tmpl2)
+    (st : List Toks) (ht : t.WF) (hs : Over (CleanTok d) (render2 t))
+    (h : evalT2 tt n t st ≠ .outOfFuel) (hk : keySafe tt n t st = true) :
+    ∃ k, ∀ m, k ≤ m → resolve (relex d) m (toTable2 tt) (render2 t) st = evalT2 tt n t st := by
+  obtain ⟨k, hk'⟩ := resolve_refines_evalT_nested_partial hT n t st ht h hk
+  exact ⟨k, fun m hm => by rw [resolve_relex_eq_id hd hc m _ st hs]; exact hk' m hm⟩
+
+/-- COUNTEREXAMPLE to termination for balanced tables under the real `norm`.  Table  o = "$",
+    a = "${o}{a}}${o}{:${o}{a}w",  input "${:${a}${a}}" (default delimiters): NO fuel suffices.
+    (With `norm = id` the same run ends: `nonvacuous_relex_witness`.) -/
+theorem resolve_diverges_relex_counterexample (fuel : Nat) :
+    resolveTop (relex ⟨['$', '{'], ['}'], [':']⟩) fuel
+      [([.ch 'o'], [.ch '$']),
+       ([.ch 'a'], [.pre, .ch 'o', .suf, .ch '{', .ch 'a', .suf, .suf, .pre, .ch 'o', .suf, .ch '{', .sep,
+          .pre, .ch 'o', .suf, .ch '{', .ch 'a', .suf, .ch 'w'])]
+      [.pre, .sep, .pre, .ch 'a', .suf, .pre, .ch 'a', .suf, .suf] = .outOfFuel :=
+  DivR.diverges fuel
+
+/-- hence balance of the table values alone does not give termination under the real `norm` -/
+theorem resolve_terminates_balanced_relex_refuted :
+    ¬ ∀ (tbl : Table), (∀ kv ∈ tbl, Balanced kv.2) → ∀ (s : Toks),
+        ∃ n, ∀ m, n ≤ m → resolve (relex ⟨['$', '{'], ['}'], [':']⟩) m tbl s [] ≠ .outOfFuel := by
+  intro h
+  obtain ⟨n, hn⟩ := h DivR.tblR DivR.tblR_balanced (Div.D 0)
+  exact hn n (Nat.le_refl n) (DivR.diverges n)
+
+/-- the witness: its token lists are what the lexer makes of the Go-side strings, both values
+    are balanced, the value of `o` is not clean (`$` starts the prefix), and with `norm = id` the
+    run ends -/
+theorem nonvacuous_relex_witness :
+    let d : Delims := ⟨['$', '{'], ['}'], [':']⟩
+    let vA : Toks := [.pre, .ch 'o', .suf, .ch '{', .ch 'a', .suf, .suf, .pre, .ch 'o', .suf, .ch '{', .sep,
+          .pre, .ch 'o', .suf, .ch '{', .ch 'a', .suf, .ch 'w']
+    lex d ['$'] = [.ch '$'] ∧
+    lex d ['$', '{', 'o', '}', '{', 'a', '}', '}', '$', '{', 'o', '}', '{', ':', '$', '{', 'o', '}', '{',
+      'a', '}', 'w'] = vA ∧
+    Balanced [Tok.ch '$'] ∧ Balanced vA ∧ d.LexOK ∧ ¬ Over (CleanTok d) [Tok.ch '$'] ∧
+    resolveTop id 20 [([.ch 'o'], [.ch '$']), ([.ch 'a'], vA)]
+      [.pre, .sep, .pre, .ch 'a', .suf, .pre, .ch 'a', .suf, .suf] ≠ .outOfFuel := by
+  decide
+
+/-- the hypotheses of `resolve_terminates_balanced_relex_partial` on a non-trivial instance:
+    all four delimiter triples of the harness are `LexOK`; the table a = `x${b:y}{`, b = `${c}`
+    (values with the NON-first prefix character `{` as plain text) is balanced and clean, so is the
+    input `${u:${a}-${u}}|${a` — and the model under `relex` gives `x${c}{-${u}|${a` -/
+theorem nonvacuous_relex_clean :
+    let d : Delims := ⟨['$', '{'], ['}'], [':']⟩
+    let tbl : Table := [(tA, [.ch 'x', .pre, .ch 'b', .sep, .ch 'y', .suf, .ch '{']),
+      ([.ch 'b'], [.pre, .ch 'c', .suf])]
+    let s : Toks := [.pre, .ch 'u', .sep] ++ phA ++ [.ch '-', .pre, .ch 'u', .suf, .suf, .ch '|', .pre, .ch 'a']
+    d.LexOK ∧ Delims.LexOK ⟨['#', '{'], ['}'], ['|']⟩ ∧ Delims.LexOK ⟨['<', '<'], ['>', '>'], [':', ':']⟩ ∧
+    Delims.LexOK ⟨['%', '('], [')'], ['?']⟩ ∧
+    (∀ kv ∈ tbl, Balanced kv.2) ∧ (∀ kv ∈ tbl, Over (CleanTok d) kv.2) ∧ Over (CleanTok d) s ∧
+    resolveTop (relex d) 10 tbl s =
+      .ok [.ch 'x', .pre, .ch 'c', .suf, .ch '{', .ch '-', .pre, .ch 'u', .suf, .ch '|', .pre, .ch 'a'] := by
+  decide
+
 /-! ## Non-vacuity and witnesses (norm = id) -/
 
 
@@ -400,12 +652,22 @@ theorem nonvacuous_evalT_cycle :
   * resolve_terminates (arbitrary finite tables) — REFUTED (`resolve_diverges_counterexample`,
     `resolve_terminates_refuted`); proved for balanced tables (`resolve_terminates_balanced_partial`),
     plain-text tables (`resolve_terminates_flat_partial`) and under the finite-reach hypothesis
-    (`resolve_terminates_of_finite_reach_partial`), all for every stack.  Not covered: `norm ≠ id`
-    (re-lexing of glued delimiter halves) in the balanced instance.
+    (`resolve_terminates_of_finite_reach_partial`), all for every stack, `norm = id`.
+    `norm = relex d` (the real one): balance of the values alone is NOT enough
+    (`resolve_diverges_relex_counterexample`, `resolve_terminates_balanced_relex_refuted`: a value
+    that is one half of a delimiter glues with literal text; D29 class at byte level); proved for
+    balanced tables and inputs without partial delimiters (`resolve_terminates_balanced_relex_partial`;
+    there the model does not depend on `norm`: `resolve_relex_eq_id_of_clean`).
 
   * resolve_refines_evalT — PROVED on the flat fragment (`resolve_refines_evalT_flat_partial`:
     plain keys, template defaults, template values; `resolve_iff_evalT_flat_partial` gives both
-    directions).  Not proved: nested keys.  The harness compares with
+    directions) and for NESTED KEYS (`resolve_refines_evalT_nested_partial`, AST `Tmpl2`, evaluator
+    `evalT2`) under the per-run hypothesis `keySafe` = every evaluated key text is separator-free;
+    without it the statement is false (`nested_needs_sepfree_counterexample`,
+    `resolve_refines_evalT_nested_unconditional_refuted`); static table-level form of the hypothesis:
+    `resolve_refines_evalT_nested_static_partial` (`TTable2.KeySafe`, `Tmpl2.KeysOK`).  Under the real `norm`:
+    `resolve_refines_evalT_nested_relex_partial` (clean tables and templates).  Not proved: the
+    converse direction (resolver ends ⇒ `evalT2` ends) for nested keys.  The harness compares with
     an independently written Go recursive-descent reference on the full grammar.
 -/
 
